@@ -20,6 +20,7 @@ hmod!(c05_shuffle, "c05_shuffle.rs");
 hmod!(c04_mac, "c04_mac.rs");
 hmod!(c07_circuits, "c07_circuits.rs");
 hmod!(c13_gateway, "c13_gateway.rs");
+hmod!(c06_prss, "c06_prss.rs");
 hmod!(c19_reshard, "c19_reshard.rs");
 hmod!(c15_seqjoin, "c15_seqjoin.rs");
 hmod!(c17_parsers, "c17_parsers.rs");
@@ -31,6 +32,7 @@ fn registry() -> Vec<&'static dyn Scenario> {
     v.extend(crate::helpers::verif_h2::scenarios());
     v.extend(c05_shuffle::scenarios());
     v.extend(c04_mac::scenarios());
+    v.extend(c06_prss::scenarios());
     v.extend(c07_circuits::scenarios());
     v.extend(c13_gateway::scenarios());
     v.extend(c15_seqjoin::scenarios());
